@@ -157,15 +157,8 @@ Definition show_state (r : res dstate) : string :=
   | Fuel => "fuel"
   end.
 
-(* ---------------- known classes ---------------- *)
-Definition outside_home (c : cfg) (r : res dstate) : bool :=
-  match r with
-  | Ok s => existsb (fun l => negb (contains (c_home c) (r_ip (l_rec l)))) (d_table s)
-  | _ => false
-  end.
-
-Definition key_new (c : cfg) (cap : sess) (i : input) (r : res dstate) : string :=
-  if outside_home c r && known_C18_bits c i then "load-prefix-bits-unchecked" else "-".
+(* no recorded defect class is left: column 3 is always "-" *)
+Definition key_new (c : cfg) (cap : sess) (i : input) (r : res dstate) : string := "-".
 
 (* ---------------- serving (renew / offer) ---------------- *)
 Definition lease6_of_tok (s : string) : option lease :=
